@@ -35,6 +35,8 @@ C = {
              text='The store is a state machine (tree, sidecars); create / update / set are actions with their failure branches; the guarantees are invariants and action properties over all histories; behaviours generated by TLC are replayed with the real WriteToPaths and the full projected state is validated after every call.', ref='5 (C15)'),
  'C16': dict(tech='TLC-generated family MC_Store[getter] (searches x attribute subsets x encoders) + replay of GetFromPaths / GetFromAll next to FindInPaths on seeded trees + TLC trace validation (GetterClauses)',
              text='The expected record of every found Sid is computed by the spec from the seeded data (SideDataOf) and the encoder; order is compared position-wise with find() of the same process.', ref='5 (C16)'),
+ 'C17': dict(tech='TLC model checking of SidecarWrite (crash between all effects and at every byte boundary; tmp_replace protocol satisfies Atomic / NextWriteSucceeds, the in-place protocol is refuted) + strace-recorded effects of the real set() validated as a behaviour of the protocol with the crash-safety invariant evaluated after every effect (WriteTrace) + every crash state and every corruption materialised and read back by a new process',
+             text='The write protocol is a small state machine with a Crash action enabled everywhere; TLC proves atomicity for write-to-temporary-then-replace and finds the counter-example for in-place truncation; the real effect sequence (strace) must be a behaviour of the former, and each crash point is rebuilt on disk and exercised with the real reader and writer.', ref='5 (C17)'),
  'C18': dict(tech='TLC model checking of VersionDyn (publish behaviours from every initial version set; LastIsGreatest, NextIsSuccessor, NewIsFresh, NewIsSuccessorOfLast, OtherFieldsKept, Monotone) + -simulate sequences of 8 publishes + replay + stateful TLC trace validation (VersionTrace)',
              text='get_last / get_next / get_new are operators over the tree state following the code path (FindInAll with ">", the configured NextGetter); the workflow guarantees are invariants over all publish histories; every behaviour is replayed with the real API and validated step by step.', ref='5 (C18)'),
  'C19': dict(tech='TLC model checking of MC_Extrapolate (ExtrapolationOK, ReplaceScoped over a grammar of configurations) + replay into extrapolate_templates / pattern_replacing + TLC trace validation',
